@@ -897,6 +897,22 @@ pub fn t2_pairs(cfg: &Cfg) -> Vec<T> {
                 }
             }
         }
+        // both operands built by the same operator over a common operand (a literal - every value at widths <= 4,
+        // the full literal alphabet above - or a third symbol): cancellation / factoring rules look at exactly this
+        if syms.len() >= 2 {
+            let (a, b) = (syms[0].clone(), syms[1].clone());
+            let mut common: Vec<T> = if w <= 4 { (0..(1u64 << w)).map(|v| T::Lit(Bv::from_u64(w, v))).collect() } else { lit_alphabet(w).into_iter().map(T::Lit).collect() };
+            common.push(T::Sym(sym_name(Ty::Bv(w), 2), Ty::Bv(w)));
+            for outer in [Bin::Eq, Bin::Ugt, Bin::Uge, Bin::Sgt, Bin::Sge, Bin::Sub, Bin::Xor, Bin::Add] {
+                for inner in [Bin::Add, Bin::Sub, Bin::Mul, Bin::Xor, Bin::And, Bin::Or, Bin::Shl, Bin::Lshr] {
+                    for c in common.iter() {
+                        out.push(T::bin(outer, T::bin(inner, a.clone(), c.clone()), T::bin(inner, b.clone(), c.clone())));
+                        out.push(T::bin(outer, T::bin(inner, c.clone(), a.clone()), T::bin(inner, c.clone(), b.clone())));
+                        out.push(T::bin(outer, T::bin(inner, a.clone(), c.clone()), T::bin(inner, c.clone(), b.clone())));
+                    }
+                }
+            }
+        }
         // concat of two slices of the same / different symbols: all slice parameter pairs
         for a in syms.iter() {
             for b in syms.iter() {
